@@ -6,6 +6,7 @@ import json, os, subprocess, sys, glob, shutil, tempfile
 from concurrent.futures import ThreadPoolExecutor
 VERIF = "/verif"
 only = [a for a in sys.argv[1:] if not a.startswith("-")]
+CORPUS = "benign" if "--benign" in sys.argv else "refactorings"   # behaviour-preserving refactorings / property-preserving changes
 m = json.load(open(f"{VERIF}/MANIFEST.json"))
 props = [c["property_id"] for c in m["checks"]]
 
@@ -37,7 +38,7 @@ def run(patch):
         shutil.rmtree(tmp, ignore_errors=True)
 
 
-todo = [p for p in sorted(glob.glob(f"{VERIF}/refactorings/*/patch.diff")) if not only or any(os.path.basename(os.path.dirname(p)).startswith(o) for o in only)]
+todo = [p for p in sorted(glob.glob(f"{VERIF}/{CORPUS}/*/patch.diff")) if not only or any(os.path.basename(os.path.dirname(p)).startswith(o) for o in only)]
 summary = {}
 with ThreadPoolExecutor(max_workers=int(os.environ.get("JOBS", "12"))) as ex:
     for rid, rec, lines in ex.map(run, todo):
@@ -52,9 +53,9 @@ with ThreadPoolExecutor(max_workers=int(os.environ.get("JOBS", "12"))) as ex:
                 print("      ", l)
 if only:
     try:
-        prev = json.load(open(f"{VERIF}/refactorings/last_run.json"))
+        prev = json.load(open(f"{VERIF}/{CORPUS}/last_run.json"))
     except Exception:
         prev = {}
     prev.update(summary)
     summary = prev
-json.dump({k: summary[k] for k in sorted(summary)}, open(f"{VERIF}/refactorings/last_run.json", "w"), indent=1)
+json.dump({k: summary[k] for k in sorted(summary)}, open(f"{VERIF}/{CORPUS}/last_run.json", "w"), indent=1)
